@@ -54,10 +54,14 @@ def _cck_gen(rng, tier):
 def proof_items():
     from contracts import misc
     from vf.driver import ProofItem
-    from contracts import pipeline_call
+    from contracts import map_run, pipeline_call
     return [ProofItem(misc.compute_cache_key, gen=_cck_gen),
             # a resident entry is used instead of executing: entered like a computed result, marked as "from cache"
-            ProofItem(pipeline_call.get_result_from_cache, gen=pipeline_call.grc_gen)]
+            ProofItem(pipeline_call.get_result_from_cache, gen=pipeline_call.grc_gen),
+            # the cache of a map run: a hit returns the stored value and runs nothing; a miss runs the function exactly
+            # once and leaves its value resident under (output name, key of the keyword arguments)
+            ProofItem(map_run.get_or_set_cache, gen=map_run.gsc_gen,
+                      registry=lambda: {**{c.short: c for c in map_run.ALL}, **{c.name: c for c in map_run.ALL}})]
 
 
 def _history(rng, d, length):
